@@ -71,7 +71,10 @@ def run_catalogue(props, jobs=16, only=None):
     cat = [v for v in load_catalogue()
            if v['property'] in props and (only is None or v['id'] in only)]
     base = {}
-    for p in props:
+    allp = set(props)
+    for v in cat:
+        allp |= set(v.get('also', []))
+    for p in sorted(allp):
         ck = run_check(p, 'quick', write=False, quiet=True)
         base[p] = {'status': ck.status, 'error': ck.error,
                    'keys': {'%s|%s|%s' % (v.rule, v.function, v.construct)
@@ -100,6 +103,22 @@ def run_catalogue(props, jobs=16, only=None):
         fired = bool(new)
         if r['status'] == 2:
             s['errors'] += 1
+        # benign twins must be silent for every property they list
+        also_bad = []
+        if expect == 'silent':
+            for q in v.get('also', []):
+                rq = res.get(q)
+                if rq is None:
+                    continue
+                bq = base.get(q) or {'keys': set()}
+                nq = sorted(set(rq['keys']) - set(bq['keys']))
+                if nq or rq['status'] == 2:
+                    also_bad.append((q, sorted({k.split('|')[0]
+                                                for k in nq})
+                                     or rq['error']))
+            if also_bad:
+                fired = True
+                new = new + ['%s|also|' % x[1] for x in also_bad]
         rules = sorted({k.split('|')[0] for k in new})
         d = {'id': vid, 'property': p, 'expect': expect, 'fired': fired,
              'rules': rules, 'status': r['status'],
